@@ -251,6 +251,12 @@ void roundCase(Ctx &c, Rng &g) {
       const AbsM x1 = absMulX(a6, 1, distinct), x3 = absMulX(a6, 3, distinct);
       rd.judge("X<1>-order6", X<1>{} * b6, model::dmulx(d6, 1), &x1);
       rd.judge("X<3>-order6", X<3>{} * b6, model::dmulx(d6, 3), &x3);
+      const AbsM x5 = absMulX(a6, 5, distinct), x6 = absMulX(a6, 6, distinct);
+      rd.judge("X<5>-order6", X<5>{} * b6, model::dmulx(d6, 5), &x5);
+      rd.judge("X<6>-order6", X<6>{} * b6, model::dmulx(d6, 6), &x6);
+      // the same high powers on a generated B-spline of order p
+      const AbsM xa5 = absMulX(aa, 5, distinct);
+      rd.judge("X<5>-bspline", X<5>{} * a, model::dmulx(da, 5), &xa5);
       const AbsM d1 = absDeriv(a6, 1), d5 = absDeriv(a6, 5);
       rd.judge("Dx<1>-order6", Dx<1>{} * b6, model::dderiv(d6, 1), &d1);
       rd.judge("Dx<5>-order6", Dx<5>{} * b6, model::dderiv(d6, 5), &d5);
